@@ -109,9 +109,10 @@ def _run_engine(prop, engine, tier, seed, nb, bs, params):
             row["_batch"] = spec["batch"]
             rows.append(row)
     viol_rows = []
+    any_prop = os.environ.get("VERIF_ANY") == "1"  # mutation scan: one engine run, every property it can see
     for row in rows:
         for v in row.get("violations", []):
-            if v["property"] == prop:
+            if v["property"] == prop or any_prop:
                 viol_rows.append((row, v))
     return eng, rows, viol_rows
 
@@ -222,7 +223,7 @@ def triage(prop, engine, eng, viol_rows, seed, tier, minimise=True, tag=""):
     groups = collections.OrderedDict()  # unknown violations, grouped by signature
     for row, v in sorted(viol_rows, key=lambda rv: rv[0]["seed"]):
         facts = eng.where_facts(row.get("case"), v) if hasattr(eng, "where_facts") else {}
-        e = findings.match(prop, v["signature"], facts, known)
+        e = findings.match(v["property"], v["signature"], facts, known)
         if e is not None:
             n_known += 1
             ktag = e.get("id") or e.get("signature")
